@@ -271,4 +271,82 @@ def rnsToRing (cof : Int → Int → Int) (s : PolySys) (rs : List Int) : PolySy
 def toRns (s : PolySys) (P : List Int) : List Int := polyRingToRns s.p s.points P
 end PolySys
 
+/-! ### several objects, interleaved operations (operation lists of any length) -/
+
+/-- one operation of a program that manipulates any number of `IntRNSsystem` objects (slots are object names) -/
+inductive IntOp
+  | construct (s : Nat) (ps : List Int)       -- slot s := IntRNSsystem(ps)             (either constructor)
+  | default (s : Nat)                         -- slot s := IntRNSsystem()
+  | copyConstruct (s t : Nat)                 -- slot s := IntRNSsystem(slot t)
+  | assign (s t : Nat)                        -- slot s = slot t                         (s = t allowed)
+  | toRing (s : Nat) (rs : List Int)          -- RnsToRing / RnsToMixedRadix on slot s   (fills `_ck`)
+  | reciprocals (s : Nat)                     -- Reciprocals() / reciprocal(i)
+  | product (s : Nat)                         -- product()                               (fills `_prod`)
+  | toRns (s : Nat) (a : Int)                 -- RingToRns                               (no state change)
+
+abbrev IntEnv := Nat → IntSys
+
+def IntEnv.init : IntEnv := fun _ => IntSys.empty
+def IntEnv.set (e : IntEnv) (s : Nat) (v : IntSys) : IntEnv := fun i => if i = s then v else e i
+
+def intStep (cof : Int → Int → Int) (e : IntEnv) : IntOp → IntEnv
+  | .construct s ps => e.set s (IntSys.ofPrimes ps)
+  | .default s => e.set s IntSys.empty
+  | .copyConstruct s t => e.set s (e t).copy
+  | .assign s t => e.set s (IntSys.assign (e s) (e t))
+  | .toRing s rs => e.set s ((e s).rnsToRing cof rs).1
+  | .reciprocals s => e.set s ((e s).reciprocals cof).1
+  | .product s => e.set s (e s).product.1
+  | .toRns _ _ => e
+
+def intRun (cof : Int → Int → Int) (e : IntEnv) (ops : List IntOp) : IntEnv := ops.foldl (intStep cof) e
+
+/-- the cache-free reading of a program: which moduli list each object holds -/
+def intPrimesStep (e : Nat → List Int) : IntOp → (Nat → List Int)
+  | .construct s ps => fun i => if i = s then ps else e i
+  | .default s => fun i => if i = s then [] else e i
+  | .copyConstruct s t => fun i => if i = s then e t else e i
+  | .assign s t => fun i => if i = s then e t else e i
+  | _ => e
+
+def intPrimesRun (e : Nat → List Int) (ops : List IntOp) : Nat → List Int := ops.foldl intPrimesStep e
+
+/-- the same for `RNSsystem<RING,Domain>` objects (which also have `setPrimes`) -/
+inductive RnsOp
+  | construct (s : Nat) (ps : List Int)
+  | default (s : Nat)
+  | copyConstruct (s t : Nat)
+  | assign (s t : Nat)
+  | setPrimes (s : Nat) (ps : List Int)
+  | toRing (s : Nat) (rs : List Int)
+  | reciprocals (s : Nat)
+  | toRns (s : Nat) (a : Int)
+
+abbrev RnsEnv := Nat → RnsSys
+
+def RnsEnv.init : RnsEnv := fun _ => RnsSys.empty
+def RnsEnv.set (e : RnsEnv) (s : Nat) (v : RnsSys) : RnsEnv := fun i => if i = s then v else e i
+
+def rnsStep (cof : Int → Int → Int) (e : RnsEnv) : RnsOp → RnsEnv
+  | .construct s ps => e.set s (RnsSys.ofPrimes ps)
+  | .default s => e.set s RnsSys.empty
+  | .copyConstruct s t => e.set s (e t).copy
+  | .assign s t => e.set s (RnsSys.assign (e s) (e t))
+  | .setPrimes s ps => e.set s ((e s).setPrimes ps)
+  | .toRing s rs => e.set s ((e s).rnsToRing cof rs).1
+  | .reciprocals s => e.set s ((e s).reciprocals cof).1
+  | .toRns _ _ => e
+
+def rnsRun (cof : Int → Int → Int) (e : RnsEnv) (ops : List RnsOp) : RnsEnv := ops.foldl (rnsStep cof) e
+
+def rnsPrimesStep (e : Nat → List Int) : RnsOp → (Nat → List Int)
+  | .construct s ps => fun i => if i = s then ps else e i
+  | .default s => fun i => if i = s then [] else e i
+  | .copyConstruct s t => fun i => if i = s then e t else e i
+  | .assign s t => fun i => if i = s then e t else e i
+  | .setPrimes s ps => fun i => if i = s then ps else e i
+  | _ => e
+
+def rnsPrimesRun (e : Nat → List Int) (ops : List RnsOp) : Nat → List Int := ops.foldl rnsPrimesStep e
+
 end Givaro.Model.CRT
